@@ -71,6 +71,22 @@ fn money_ok(shown: &Rat, computed: &Rat) -> bool {
     full || *shown == rounded
 }
 
+/// A figure the formatter derives by a division (average cost, unit price): the "computed value"
+/// is the exact quotient or the quotient in the tool's own 28-digit decimal arithmetic (they
+/// differ in the last digit, which can decide a rounding when FX conversion left 28-digit inputs).
+fn quotient_ok(shown: &Rat, num: Decimal, den: Decimal) -> bool {
+    if den.is_zero() {
+        return true;
+    }
+    if money_ok(shown, &(Rat::from_dec(num) / Rat::from_dec(den))) {
+        return true;
+    }
+    match num.checked_div(den) {
+        Some(q) => money_ok(shown, &Rat::from_dec(q)),
+        None => false,
+    }
+}
+
 fn trimmed(d: Decimal) -> String {
     let s = d.to_string();
     if s.contains('.') { s.trim_end_matches('0').trim_end_matches('.').to_string() } else { s }
@@ -190,7 +206,7 @@ pub fn check_text(r: &TaxReport, text: &str) -> Result<(), String> {
                     let fig = l[want.len()..].trim();
                     let unit = Rat::from_dec(m.allowable_cost) / Rat::from_dec(m.quantity);
                     let Some((shown, _)) = parse_gbp(fig) else { return Err(format!("text: S104 unit cost '{fig}'")) };
-                    if !money_ok(&shown, &unit) {
+                    if !quotient_ok(&shown, m.allowable_cost, m.quantity) {
                         return Err(format!("text: disposal {} {}: S104 unit cost shown {fig}, computed {unit}", d.ticker, d.date));
                     }
                 }
@@ -208,7 +224,7 @@ pub fn check_text(r: &TaxReport, text: &str) -> Result<(), String> {
             if !d.quantity.is_zero() {
                 let unit = &gross / Rat::from_dec(d.quantity);
                 let (shown, _) = parse_gbp(&toks[0]).ok_or_else(|| format!("text: unit price '{}'", toks[0]))?;
-                if !money_ok(&shown, &unit) {
+                if !quotient_ok(&shown, d.gross_proceeds, d.quantity) {
                     return Err(format!("text: disposal {} {}: unit price shown {}, computed {unit}", d.ticker, d.date, toks[0]));
                 }
             }
@@ -272,7 +288,7 @@ pub fn check_text(r: &TaxReport, text: &str) -> Result<(), String> {
             let fig = l[want.len()..].split(' ').next().unwrap_or("");
             let avg = Rat::from_dec(h.total_cost) / Rat::from_dec(h.quantity);
             let (shown, _) = parse_gbp(fig).ok_or_else(|| format!("text: holding figure '{fig}'"))?;
-            if !money_ok(&shown, &avg) {
+            if !quotient_ok(&shown, h.total_cost, h.quantity) {
                 return Err(format!("text: holding {} average cost shown {fig}, computed {avg}", h.ticker));
             }
         }
@@ -302,6 +318,62 @@ pub fn check_text(r: &TaxReport, text: &str) -> Result<(), String> {
         if !rest.contains(&p) || !rest.contains(&format!("{f} fees")) {
             return Err(format!("text: transaction line '{l}' does not echo price {p} and fees {f} in full"));
         }
+    }
+    // asset events echo (DIVIDEND/ACCUMULATION/CAPRETURN/SPLIT/UNSPLIT): same lines, date then
+    // ticker order; lines of one (date, ticker) may come in any order among themselves
+    let mut events: Vec<&cgt_core::Transaction> = r.transactions.iter().filter(|t| !matches!(t.operation, cgt_core::Operation::Buy { .. } | cgt_core::Operation::Sell { .. })).collect();
+    events.sort_by(|a, b| a.date.cmp(&b.date).then(a.ticker.cmp(&b.ticker)));
+    let ev_lines: Vec<&str> = match sec("# ASSET EVENTS") {
+        Some(i) => lines[i + 1..].iter().filter(|l| !l.trim().is_empty()).cloned().collect(),
+        None => vec![],
+    };
+    if ev_lines.len() != events.len() {
+        return Err(format!("text: {} asset-event lines, {} asset events in the ledger", ev_lines.len(), events.len()));
+    }
+    let mut i = 0;
+    while i < events.len() {
+        let mut j = i;
+        while j < events.len() && events[j].date == events[i].date && events[j].ticker == events[i].ticker {
+            j += 1;
+        }
+        let mut group: Vec<&str> = ev_lines[i..j].to_vec();
+        for t in &events[i..j] {
+            let (prefix, total): (String, Option<&cgt_money::CurrencyAmount>) = match &t.operation {
+                cgt_core::Operation::Dividend { total_value, .. } => (format!("{} DIVIDEND {} ", uk_date(t.date), t.ticker), Some(total_value)),
+                cgt_core::Operation::Accumulation { amount, total_value, .. } => (format!("{} ACCUMULATION {} {} ", uk_date(t.date), t.ticker, trimmed(*amount)), Some(total_value)),
+                cgt_core::Operation::CapReturn { amount, total_value, .. } => (format!("{} CAPRETURN {} {} ", uk_date(t.date), t.ticker, trimmed(*amount)), Some(total_value)),
+                cgt_core::Operation::Split { ratio } => (format!("{} SPLIT {} {}", uk_date(t.date), t.ticker, trimmed(*ratio)), None),
+                cgt_core::Operation::Unsplit { ratio } => (format!("{} UNSPLIT {} {}", uk_date(t.date), t.ticker, trimmed(*ratio)), None),
+                _ => unreachable!(),
+            };
+            let pos = group.iter().position(|l| match total {
+                None => l.trim_end() == prefix,
+                Some(tv) => {
+                    l.starts_with(&prefix) && {
+                        let fig = l[prefix.len()..].trim();
+                        if tv.is_gbp() {
+                            matches!(parse_gbp(fig), Some((shown, true)) if money_ok(&shown, &Rat::from_dec(tv.amount)))
+                        } else {
+                            fig.ends_with(tv.code())
+                        }
+                    }
+                }
+            });
+            match pos {
+                Some(k) => {
+                    group.remove(k);
+                }
+                None => {
+                    return Err(format!(
+                        "text: asset events not listed by date then ticker, or a figure differs: expected a line '{prefix}…' among lines {}..{} of the section, found {:?}",
+                        i + 1,
+                        j,
+                        &ev_lines[i..j]
+                    ))
+                }
+            }
+        }
+        i = j;
     }
     Ok(())
 }
@@ -455,6 +527,32 @@ fn check_pdf_money(tok: &str, f: &Fig, out: &mut PdfOutcome) -> Result<(), Strin
         return Ok(());
     }
     Err(format!("pdf: {} shows {tok} but the computed value is {} (pence: {})", f.what, f.exact, gbp(&f.exact)))
+}
+
+/// A transaction-table / event-table amount in its own currency: GBP as '£', any other currency
+/// as "<CODE> <grouped integer>.<two decimals>" (the template's fmt-currency).
+fn check_pdf_cur(tok: &str, a: &cgt_money::CurrencyAmount, what: &str, out: &mut PdfOutcome) -> Result<(), String> {
+    let exact = Rat::from_dec(a.amount);
+    let float = a.amount.to_f64().unwrap_or(f64::NAN);
+    if a.is_gbp() {
+        return check_pdf_money(tok, &fig(what.to_string(), exact, float), out);
+    }
+    let code = a.code();
+    let Some(num) = tok.strip_prefix(code).and_then(|r| r.strip_prefix(' ')) else {
+        return Err(format!("pdf: {what} shows '{tok}', expected an amount in {code} ({})", a.amount));
+    };
+    let Some((shown, well)) = parse_gbp(&format!("£{num}")) else { return Err(format!("pdf: {what} shows '{tok}', not a figure")) };
+    if !well {
+        return Err(format!("pdf: {what} shows '{tok}': not thousands separators and two decimals"));
+    }
+    if money_ok(&shown, &exact) {
+        return Ok(());
+    }
+    if typst_money(float).replace('£', &format!("{code} ")) == tok {
+        out.float_rounding.push(format!("{what} shows {tok}, exact value {exact} rounds half away from zero to {}", exact.to_fixed(2)));
+        return Ok(());
+    }
+    Err(format!("pdf: {what} shows {tok} but the amount is {} {code}", a.amount))
 }
 
 fn check_pdf_qty(tok: &str, d: Decimal, what: &str, out: &mut PdfOutcome) -> Result<(), String> {
@@ -648,9 +746,9 @@ pub fn check_pdf(r: &TaxReport, runs: &[cgt_formatter_pdf::VerifTextRun]) -> Res
     } else {
         seek(&mut pos, &|t| t == "Fees", "transactions header")?;
         for t in trades {
-            let (kind, amount) = match &t.operation {
-                cgt_core::Operation::Buy { amount, .. } => ("BUY", *amount),
-                cgt_core::Operation::Sell { amount, .. } => ("SELL", *amount),
+            let (kind, amount, price, fees) = match &t.operation {
+                cgt_core::Operation::Buy { amount, price, fees } => ("BUY", *amount, price, fees),
+                cgt_core::Operation::Sell { amount, price, fees } => ("SELL", *amount, price, fees),
                 _ => unreachable!(),
             };
             let date = uk_date(t.date);
@@ -659,7 +757,105 @@ pub fn check_pdf(r: &TaxReport, runs: &[cgt_formatter_pdf::VerifTextRun]) -> Res
                 return Err(format!("pdf: transaction row {date}: {:?} {:?}, expected {kind} {}", texts.get(at + 1), texts.get(at + 2), t.ticker));
             }
             check_pdf_qty(texts.get(at + 3).copied().unwrap_or(""), amount, &format!("transaction {date} {}", t.ticker), &mut out)?;
-            pos = at + 4;
+            check_pdf_cur(texts.get(at + 4).copied().unwrap_or(""), price, &format!("transaction {date} {kind} {} price", t.ticker), &mut out)?;
+            check_pdf_cur(texts.get(at + 5).copied().unwrap_or(""), fees, &format!("transaction {date} {kind} {} fees", t.ticker), &mut out)?;
+            pos = at + 6;
+        }
+    }
+    // asset events: one row (date, type, ticker, amount, value) per DIVIDEND / ACCUMULATION /
+    // CAPRETURN / SPLIT / UNSPLIT line, by date then ticker (rows of one date and ticker in any order)
+    let mut events: Vec<&cgt_core::Transaction> = r.transactions.iter().filter(|t| !matches!(t.operation, cgt_core::Operation::Buy { .. } | cgt_core::Operation::Sell { .. })).collect();
+    events.sort_by(|a, b| a.date.cmp(&b.date).then(a.ticker.cmp(&b.ticker)));
+    if !events.is_empty() {
+        seek(&mut pos, &|t| t == "Asset Events", "asset events heading")?;
+        let start = seek(&mut pos, &|t| t == "Value", "asset events header")? + 1;
+        // a dividend row's amount cell "-" followed by "£…" was joined above like a negative
+        // figure (values in this table are never negative): take such tokens apart again
+        let mut cells: Vec<&str> = vec![];
+        let region = &texts[start.min(texts.len())..];
+        let mut skip = 0;
+        for (k, t) in region.iter().enumerate() {
+            // the table header is repeated when the table continues on the next page
+            if skip > 0 {
+                skip -= 1;
+                continue;
+            }
+            if region[k..].starts_with(&["Date", "Type", "Ticker", "Amount", "Value"]) {
+                skip = 4;
+                continue;
+            }
+            match t.strip_prefix('-') {
+                Some(rest) if rest.starts_with('£') => {
+                    cells.push("-");
+                    cells.push(rest);
+                }
+                _ => cells.push(t),
+            }
+        }
+        let rows: Vec<&[&str]> = (0..events.len()).filter_map(|k| cells.get(5 * k..5 * k + 5)).collect();
+        if rows.len() != events.len() {
+            return Err(format!("pdf: {} asset-event rows found, {} asset events in the ledger", rows.len(), events.len()));
+        }
+        let mut i = 0;
+        while i < events.len() {
+            let mut j = i;
+            while j < events.len() && events[j].date == events[i].date && events[j].ticker == events[i].ticker {
+                j += 1;
+            }
+            let mut group: Vec<&[&str]> = rows[i..j].to_vec();
+            for t in &events[i..j] {
+                let date = uk_date(t.date);
+                let (kind, qty, value): (&str, Option<Decimal>, Option<&cgt_money::CurrencyAmount>) = match &t.operation {
+                    cgt_core::Operation::Dividend { total_value, .. } => ("DIVIDEND", None, Some(total_value)),
+                    cgt_core::Operation::Accumulation { amount, total_value, .. } => ("ACCUMULATION", Some(*amount), Some(total_value)),
+                    cgt_core::Operation::CapReturn { amount, total_value, .. } => ("CAPRETURN", Some(*amount), Some(total_value)),
+                    cgt_core::Operation::Split { ratio } => ("SPLIT", Some(*ratio), None),
+                    cgt_core::Operation::Unsplit { ratio } => ("UNSPLIT", Some(*ratio), None),
+                    _ => unreachable!(),
+                };
+                let mut problem = String::new();
+                let found = group.iter().position(|row| {
+                    if row[0] != date || row[1] != kind || row[2] != t.ticker {
+                        return false;
+                    }
+                    let mut scratch = PdfOutcome { float_rounding: vec![] };
+                    let q_ok = match qty {
+                        None => row[3] == "-",
+                        Some(q) => check_pdf_qty(row[3], q, "event", &mut scratch).is_ok(),
+                    };
+                    let v_ok = match value {
+                        None => row[4] == "-",
+                        Some(v) => match check_pdf_cur(row[4], v, &format!("asset event {date} {kind} {} value", t.ticker), &mut scratch) {
+                            Ok(()) => true,
+                            Err(e) => {
+                                problem = e;
+                                false
+                            }
+                        },
+                    };
+                    if q_ok && v_ok {
+                        out.float_rounding.extend(scratch.float_rounding);
+                    }
+                    q_ok && v_ok
+                });
+                match found {
+                    Some(k) => {
+                        group.remove(k);
+                    }
+                    None => {
+                        return Err(format!(
+                            "pdf: asset events not listed by date then ticker, or a cell differs: no row for {date} {kind} {} (amount {:?}, value {:?}) among rows {}..{}: {:?} {problem}",
+                            t.ticker,
+                            qty,
+                            value.map(|v| format!("{} {}", v.amount, v.code())),
+                            i + 1,
+                            j,
+                            &rows[i..j]
+                        ))
+                    }
+                }
+            }
+            i = j;
         }
     }
     Ok(out)
@@ -672,6 +868,10 @@ pub struct Case {
     pub gl: GenLedger,
     /// 0 as generated; 1 snapped to eighths (half-penny midpoints); 2 large (x1000 quantities)
     pub mode: u8,
+    /// per money field (in ledger order): 0..=9 GBP, otherwise one of ten foreign currencies;
+    /// empty = all GBP
+    #[serde(default)]
+    pub cur: Vec<u8>,
 }
 
 fn snap(l: &[Tx], mode: u8) -> Vec<Tx> {
@@ -700,7 +900,29 @@ const RULE: &str = "accepted ledgers (splits, dividends, 1-3 securities, embedde
 
 fn strat(t: Tier) -> BoxedStrategy<Case> {
     let cfg = GenCfg::basic().secs(3).days(2, t.pick(12, 20)).splits(SplitMode::Terminating).dividends(true).years(2015, 2023);
-    (lgen::ledger_strategy(cfg), prop_oneof![2 => Just(0u8), 3 => Just(1u8), 1 => Just(2u8)]).prop_map(|(gl, mode)| Case { gl, mode }).boxed()
+    (lgen::ledger_strategy(cfg), prop_oneof![2 => Just(0u8), 3 => Just(1u8), 1 => Just(2u8)], prop_oneof![2 => Just(vec![]), 1 => proptest::collection::vec(0u8..20, 16)])
+        .prop_map(|(gl, mode, cur)| Case { gl, mode, cur })
+        .boxed()
+}
+
+/// foreign-currency echoes: every monetary field independently GBP or a foreign currency
+fn with_currencies(l: Vec<Tx>, cur: &[u8]) -> Vec<Tx> {
+    if cur.is_empty() {
+        return l;
+    }
+    const CURS: [&str; 10] = ["USD", "EUR", "JPY", "CHF", "AUD", "CAD", "INR", "ZAR", "SEK", "HKD"];
+    let mut l = l;
+    let mut k = 0usize;
+    for t in l.iter_mut() {
+        for m in t.monies_mut() {
+            let sel = cur[k % cur.len()];
+            k += 1;
+            if sel >= 10 {
+                m.c = CURS[(sel as usize - 10) % CURS.len()].to_string();
+            }
+        }
+    }
+    l
 }
 
 fn classify(r: &TaxReport, obs: &mut Obs) {
@@ -753,7 +975,7 @@ fn f8() -> Verdict {
 }
 
 pub fn check_common(c: &Case, obs: &mut Obs, with_pdf: bool) -> Verdict {
-    let ledger = snap(&c.gl.ledger, c.mode);
+    let ledger = with_currencies(snap(&c.gl.ledger, c.mode), &c.cur);
     if lgen::has_excluded_placement(&ledger) {
         obs.excluded += 1;
         return Verdict::Pass;
@@ -761,8 +983,10 @@ pub fn check_common(c: &Case, obs: &mut Obs, with_pdf: bool) -> Verdict {
     let dsl = crate::led::to_dsl(&ledger);
     obs.hash = crate::led::hash_str(&dsl);
     obs.class(&format!("mode_{}", c.mode));
+    let foreign = ledger.iter().any(|t| t.monies().iter().any(|m| !m.is_gbp()));
+    obs.class_if(foreign, "foreign_currency_echoes");
     let cfg = cgt_core::Config::embedded().unwrap_or_default();
-    let r = match tool::calc_with(&ledger, None, None, &cfg) {
+    let r = match tool::calc_with(&ledger, None, if foreign { Some(crate::props::c15::fx()) } else { None }, &cfg) {
         Outcome::Ok(r) => r,
         Outcome::Err(_) => {
             obs.class("tool_rejected");
